@@ -57,7 +57,13 @@ def main():
     if not h.under(ws_real, scratch):
         print("C18RESULT " + json.dumps({"why": None, "note": "workspace escapes the scratch directory; not replayed"}))
         return
-    if cfg["stale"]:
+    if cfg["stale"] == 2:
+        w(f"{scratch}/outside/keep/k.txt", "K")
+        w(f"{scratch}/outside/mirror/m.py", "M")
+        w(os.path.join(ws_real, "old.txt"), "OLD")
+        os.symlink(f"{scratch}/outside/mirror", os.path.join(ws_real, "src"))
+        os.symlink(f"{scratch}/outside/keep", os.path.join(ws_real, "bak"))
+    elif cfg["stale"]:
         w(os.path.join(ws_real, "src/old.py"), "OLD")
         w(os.path.join(ws_real, "old.txt"), "OLD")
         os.symlink(f"{scratch}/outside", os.path.join(ws_real, "old_link"))
@@ -95,6 +101,8 @@ def main():
     if why is None and not cfg["force"]:
         for k in before:
             if h.under(k, ws_real) and k not in after:
+                if cfg.get("incremental") and h.under(k, os.path.join(ws_real, "bak")):
+                    continue
                 why = f"delete of {k[len(scratch):]} without --force"
                 break
     created = len([k for k in after if k not in before])
